@@ -170,6 +170,23 @@ func (g *gen) enumerate(thorough bool) []*arch {
 		}
 	}
 
+	// B2. empty member + descriptor width x version-needed, first of two (the width of an empty member's descriptor cannot be
+	// inferred from its contents; relic decides by version-needed)
+	for _, desc := range []int{1, 3} {
+		for _, rd := range []uint16{10, 20, 44, 45, 46, 63} {
+			for _, method := range []uint16{0, 8} {
+				m := g.member("e.txt", []byte{}, method)
+				m.Desc = desc
+				m.Reader = rd
+				add(fmt.Sprintf("empty-desc desc=%d reader=%d method=%d", desc, rd, method), nil, m, g.member("b.txt", []byte("hello"), 0))
+				m2 := g.member("e.txt", []byte{}, method)
+				m2.Desc = desc
+				m2.Reader = rd
+				add(fmt.Sprintf("empty-desc-last desc=%d reader=%d method=%d", desc, rd, method), nil, g.member("b.txt", []byte("hello"), 0), m2)
+			}
+		}
+	}
+
 	// C. central saturation flags, all 8 combinations x Z64Last x lz64 on a 2-member archive
 	for mask := 0; mask < 8; mask++ {
 		for _, last := range []bool{false, true} {
